@@ -68,7 +68,7 @@ class C13:
         return _strategy()
 
     def examples(self, tier):
-        return 2500 if tier == "quick" else 50000
+        return 2500 if tier == "quick" else 500000
 
     def enumerate(self, tier):
         return []
